@@ -80,6 +80,9 @@ TOKEN_FAMILY = [
     "x := 1 << 2", "x := 1 >> 2", "x <<= 2", "x >>= 2", "x := 10E2 + 3.5", "# comment\nx := 1  # trailing",
     "x := \"a {b} c\"", "class A\n    def x: Int := 1\n\n    def f(self) -> Int => self.x\n", "a\r\nb",
     "x := \"a\n\"\ny := 2", "f(a)(b).c[d]", "x := not a and b or c", "x := a _and_ b _or_ c",
+    "x := 2E3E5", "x := 2E3Ex", "1 + 2E3Ey", "x := 2E", "a := 1.2.3", "a := 1..2", "a := 1 ..= 2", "x := 12abc", "x := 1.5E2",
+    "# c", "x # c", "x := \"} {\"", "x := \"a {b} c {d}\"", "x := \"{\"", "x := \"}\"", "abc_1 := _x9", "a<=b>=c!=d->e=>f",
+    "a::=b..=c", "x := \"\\\"\"", "i := isa_x", "if_ := 1",
 ]
 
 
@@ -569,6 +572,47 @@ def kani_step_replay(rp):
     return f
 
 
+def lexstep_replay(rp):
+    """Replay for the E2 lexer-step obligations: the model's own input through one real step, then the token family."""
+    def mk(what):
+        def f(model):
+            try:
+                n = int(model.get("input.len", 0))
+                c0 = chr(int(model.get("first_char", 32)))
+                la = "".join(chr(int(model.get(f"lookahead[{i}]", 32))) for i in range(min(n, 4)))
+                if n <= 4 and all(32 <= ord(ch) < 127 or ch in "\n\r" for ch in c0 + la):
+                    cur, li = int(model.get("cur_indent", 1)), int(model.get("line_indent", 1))
+                    line, col = int(model.get("pos.line", 1)), int(model.get("pos.pos", 1))
+                    if max(cur, li, line, col) <= 1000:
+                        st, out = rp.req("step", common.hexs(c0), common.hexs(la), cur, li, 1 if model.get("token_this_line") else 0, line, col, 0)
+                        if st in ("PANIC", "CRASH"):
+                            return {"reproduced": True, "role": f"{what}:panic:first-char={c0!r}", "detail": f"step on {c0 + la!r}: {st} {out[:100]}"}
+                        if st == "OK":
+                            rows = out.split("\n")
+                            consumed, pl, pc = (int(x) for x in rows[0].split("\t")[:3])
+                            toks = [r.split("\t") for r in rows[1:]]
+                            text = (c0 + la)[:consumed]
+                            import binascii
+                            if toks and "\n" not in text:
+                                t = toks[-1]
+                                spelled = binascii.unhexlify(t[1]).decode() if t[1] else ""
+                                if spelled != text and not t[0].startswith(("Str(", "DocStr(")):
+                                    return {"reproduced": True, "role": f"{what}:first-char={c0!r}", "detail": f"step on {c0 + la!r} took {text!r} but produced {t[0]} spelled {spelled!r}"}
+                                if (int(t[4]), int(t[5])) != (line, col + consumed) or (pl, pc) != (line, col + consumed):
+                                    return {"reproduced": True, "role": f"{what}:first-char={c0!r}", "detail": f"step on {c0 + la!r}: token ends ({t[4]},{t[5]}), caret ({pl},{pc}), {consumed} characters from column {col}"}
+            except Exception as e:   # pragma: no cover
+                pass
+            if "panic" in what:
+                for src in TOKEN_FAMILY:
+                    st, toks = rp.tokens(src)
+                    if st in ("PANIC", "CRASH"):
+                        return {"reproduced": True, "role": f"{what}:panic:{src!r}", "detail": f"tokenize({src!r}): {st} {toks}"}
+                return {"reproduced": False, "detail": "no panic on the model input or the token family"}
+            return family_replay(rp, what)(model)
+        return f
+    return mk
+
+
 def kani_part(run, rp, tier, quick_set):
     import e1
     names = list(quick_set) + ["state_token_nl", "state_space", "table_long_names"]
@@ -598,6 +642,11 @@ def run(run):
     ob_balance(run, mir, rp, summaries, misc, run.tier)
     ob_lex_new(run, mir, rp)
     ob_caret(run, mir, rp)
+    import lexstep
+    lexstep.obligations(run, mir, rp, lexstep_replay(rp), want=("advance", "invariants"))
+    run.assume("lexer step (E2): the character iterator follows its documented contract over an arbitrary ASCII stream of <= 2^20 "
+               "characters; Strings are modelled by their length; as_op_or_id returns a token spelled like the lexeme (decided by "
+               "the Kani table harness); tokenize_direct (re-lexing of interpolations) is uninterpreted")
     if os.environ.get("VERIF_NO_KANI") != "1":
         import e1
         kani_part(run, rp, run.tier, e1.QUICK_A)
